@@ -420,6 +420,13 @@ pub fn run() {
             "snap" => {
                 snapshot(&mut out, &cfg.root);
             }
+            "hardlink" => {
+                let _g = Paused::new();
+                let a = cfg.root.join(f[1]);
+                let b = cfg.root.join(f[2]);
+                if let Some(par) = b.parent() { let _ = std::fs::create_dir_all(par); }
+                let _ = std::fs::hard_link(&a, &b);
+            }
             "sleep" => {
                 std::thread::sleep(std::time::Duration::from_millis(f[1].parse().unwrap()));
             }
@@ -491,6 +498,14 @@ pub fn run() {
                                 "sset" => shardeds[h].set(key(3), &src),
                                 _ => shardeds[h].put(key(3), &src),
                             };
+                            let left = { let _g = Paused::new(); src.exists() };
+                            match r { Ok(()) => format!("OkUnit src_left={}", if left { 1 } else { 0 }), Err(e) => format!("{} src_left={}", err_line(&e), if left { 1 } else { 0 }) }
+                        }
+                        "set_path" | "put_path" => {
+                            // publish an EXISTING path as is (no staging): f[6] is relative to the root
+                            let src = root.join(f[6]);
+                            mark("staged");
+                            let r = if kind == "set_path" { caches[h].set(key(3), &src) } else { caches[h].put(key(3), &src) };
                             let left = { let _g = Paused::new(); src.exists() };
                             match r { Ok(()) => format!("OkUnit src_left={}", if left { 1 } else { 0 }), Err(e) => format!("{} src_left={}", err_line(&e), if left { 1 } else { 0 }) }
                         }
